@@ -88,8 +88,14 @@ def select (target : Nat) : List Utxo → Nat → Option (Nat × List Utxo)
       if acc' > target then some (acc', [u])
       else (select target us acc').map fun r => (r.1, u :: r.2)
 
-/-- the model of `rawTx(proposals, resource)`; `none` = an error is returned and no transaction exists -/
+/-- `btcutil.MaxSatoshi` -/
+def maxSat : Nat := 21 * 10 ^ 14
+
+/-- the model of `rawTx(proposals, resource)`; `none` = an error is returned and no transaction exists.
+    `outputs` refuses a proposal amount or a running total above `btcutil.MaxSatoshi`; since amounts and the total before
+    each addition are then ≤ 21·10^14 the uint64 running total is exact, so that test is `sumAmounts > maxSat`. -/
 def rawTx (i : Inp) : Option Tx :=
+  if sumAmounts i.props > maxSat then none else
   match propOuts i.props, i.cid.bind nullData with
   | some pouts, some nd =>
     let n := i.props.length
@@ -152,9 +158,9 @@ instance (i : Inp) (o : Option Tx) : Decidable (P16 i o) := by
 def cannotCover (i : Inp) (r2 : Nat) (us : List Utxo) : Prop :=
   ∀ k, k ≤ us.length → sumValues (us.take k) < sumAmounts i.props + feeOf r2 k (i.props.length + 1)
 
-/-- bounds under which no uint64/int64 wrap can occur -/
+/-- bounds under which no uint64/int64 wrap can occur (amounts need none: `outputs` refuses what exceeds the supply) -/
 def WF (i : Inp) : Prop :=
-  i.props.length ≤ 1000 ∧ (∀ p ∈ i.props, p.amount ≤ 21 * 10 ^ 14) ∧
+  i.props.length ≤ 10 ^ 6 ∧
   (∀ r, i.rate1 = some r → r ≤ 10 ^ 6) ∧ (∀ r, i.rate2 = some r → r ≤ 10 ^ 6) ∧
   (∀ us, i.utxos = some us → us.length ≤ 10 ^ 6 ∧ ∀ u ∈ us, u.value ≤ 21 * 10 ^ 14)
 
@@ -209,8 +215,9 @@ instance (listing out : List Utxo) : Decidable (P16sort listing out) := by unfol
 
 /-! ### ERC20MessageHandler: amount bytes → proposal amount -/
 
-/-- `new(big.Int).SetBytes(amount) / 10^10`, then `.Uint64()` (low 64 bits) -/
-def msgAmount (amountBytes : Bytes) : Nat := (beToNat amountBytes / 10 ^ 10) % M
+/-- `new(big.Int).SetBytes(amount) / 10^10`; an amount that is no uint64 is refused (`none`) -/
+def msgAmount (amountBytes : Bytes) : Option Nat :=
+  if beToNat amountBytes / 10 ^ 10 < M then some (beToNat amountBytes / 10 ^ 10) else none
 
 /-! ### which proposals of a batch are executed (`proposalsForExecution`) -/
 
